@@ -431,7 +431,6 @@ func (rw *rewriter) node(v reflect.Value) {
 	}
 }
 
-
 func unparen(e ast.Expr) ast.Expr {
 	for {
 		p, ok := e.(*ast.ParenExpr)
